@@ -418,6 +418,24 @@ Definition all_scalar (l : list val) : bool := forallb is_scalar l.
 Definition unB (l : list val) : option (list bool) :=
   map_opt (fun v => match v with VB b => Some b | _ => None end) l.
 
+(** x in seq for a list / tuple of scalars, strings or tuples (== on each element, left to right) *)
+Fixpoint member (x : val) (l : list val) : option bool :=
+  match l with
+  | [] => Some false
+  | y :: t => match cmp_val CEq x y with
+              | Some true => Some true
+              | Some false => member x t
+              | None => None end
+  end.
+
+(** max of a non-empty sequence of ints *)
+Fixpoint max_ints (l : list val) : option Z :=
+  match l with
+  | [VZ z] => Some z
+  | VZ z :: t => match max_ints t with Some m => Some (Z.max z m) | None => None end
+  | _ => None
+  end.
+
 (** builtins of the fragment, on exact numbers *)
 Definition call (f : string) (args : list val) : option (option val) :=   (* None: stuck; Some None: raises *)
   let is := String.eqb f in
@@ -543,6 +561,19 @@ Definition call (f : string) (args : list val) : option (option val) :=   (* Non
                 | _, _ => None end
     | _ => None
     end
+  else if is "in" then                  (* x in seq: the serialiser renders `a in e` for a non-literal e as a call of "in" *)
+    match args with
+    | [x; VL l] | [x; VT l] => match member x l with Some b => Some (Some (VB b)) | None => None end
+    | _ => None
+    end
+  else if is "max" then                 (* max(seq) of ints; an empty sequence raises ValueError *)
+    match args with
+    | [VL []] | [VT []] => Some None
+    | [VL l] | [VT l] => match max_ints l with Some m => Some (Some (VZ m)) | None => None end
+    | _ => None
+    end
+  else if is "np.ravel" then            (* a 1-D array is its own raveling *)
+    match args with [VA l] => if all_scalar l then Some (Some (VA l)) else None | _ => None end
   else if String.prefix "attr:" f then      (* obj.a: an attribute set in this function, or given with the object *)
     match args with
     | [VO _ fs] => match lookup fs (String.substring 5 (String.length f - 5) f) with
